@@ -112,6 +112,16 @@ def step (page : Nat) (ws : List String) : Nat × String :=
       let r := fileEquals (some a) (some (if same == "1" then a else b)) (same == "1") page (alloc == "ok")
       (page, s!"eq={if r then 1 else 0} sym={if r then 1 else 0} fds=1")
     | _, _, _ => (page, "bad-op")
+  | ["feqino", da, ia, db, ib, same] =>
+    match da.toInt?, ia.toNat?, db.toInt?, ib.toNat? with
+    | some da, some ia, some db, some ib =>
+      -- device -1 = the real device of the scratch directory (the same for both files): rendered as 0 here
+      let dev := fun (d : Int) => if d < 0 then 0 else d.toNat + 1
+      let a := [97, 97, 97, 97]
+      let b := if same == "1" then a else [97, 97, 97, 98]
+      let r := fileEquals (some a) (some b) (sameInode (dev da) ia (dev db) ib) page true
+      (page, s!"eq={if r then 1 else 0} fds=1")
+    | _, _, _, _ => (page, "bad-op")
   | ["feqmissing"] =>
     let r1 := fileEquals (some [97, 98, 99]) none false page true
     let r3 := fileEquals none none false page true
